@@ -407,6 +407,18 @@ def conflict_rule(ctx):
             ctx.ob('CONFLICT', 'register/Less', not got, short_loc(reg.span), 'existing lower priority kept: assigns %s' % sorted(got))
         if 'Greater' in r.variants and len(r.variants) == 1:
             ctx.ob('CONFLICT', 'register/Greater', got == {'Some'}, short_loc(reg.span), 'new lower priority wins: assigns %s' % sorted(got))
+    # every Some{..} stored carries the discriminant and node of the variant being registered, untouched
+    nst = 0
+    for bb in sorted(reg.live_blocks()):
+        for s_ in reg.stmts(bb):
+            if 'assign' in s_ and s_['rv']['k'] == 'agg' and s_['rv'].get('adt') == NSC and s_['rv']['variant'] == 'Some':
+                nst += 1
+                i = s_['rv']['fields'].index('discriminant_and_schema_node')
+                o = origin(reg, s_['rv']['ops'][i])
+                okd = 'upvar' in o.flags and not o.has_arith() and not [a for a in o.atoms if a[0] == 'const'] and not [x for x in o.flags if x.startswith('cast:')]
+                ctx.ob('CONFLICT', 'register/stored-pair#%d' % nst, okd, short_loc(s_.get('span')),
+                       '(discriminant, node) stored in the lookup slot derives from %s (must be the captured pair, no arithmetic)' % o.describe()[:150])
+    ctx.floor('CONFLICT', 'slot assignments storing a branch', nst, 3)
     # the comparison is old.cmp(new) on the priorities
     for bb, t in reg.calls():
         if call_matches(t, ['Ord>::cmp', 'Ord::cmp']):
@@ -527,7 +539,7 @@ def seqkind_rule(ctx):
     se = bs['serialize_element']
     ctx.touched(se)
     allowed = {
-        'Array': {('VALUE',)},
+        'Array': {('VALUE',), ('BLOCKSTEP',)},
         'Duration': {('RAW', 4, 'le')},
         'BufferedBytes': set(),
         'Fixed': {('RAW', 1, None)},
@@ -538,13 +550,12 @@ def seqkind_rule(ctx):
         toks = region_tokens(se, r.blocks, f)
         ts = {t[0] for t in toks}
         # signal_next_record is the block step
-        ts = {t for t in ts if not (t[0] == 'UNCLASSIFIED' and t[1].endswith('signal_next_record'))}
         for v in r.variants:
             seen.add(v)
             ctx.ob('SEQKIND', 'element/%s' % v, ts <= allowed.get(v, set()), short_loc(se.span),
                    'element step for %s emits %s (allowed %s)' % (v, sorted(ts, key=str), sorted(allowed.get(v, set()), key=str)))
             if v == 'Array':
-                sig = [bb for bb in blocks_calling(se, ['::signal_next_record'], r.blocks)]
+                sig = [tbb for tok, tb, tbb, t in toks if tok == ('BLOCKSTEP',) and tb is se]
                 val = [tbb for tok, tb, tbb, t in toks if tok == ('VALUE',) and tb is se]
                 ok = bool(sig) and bool(val) and all(any(se.dominates(s, v_) for s in sig) for v_ in val)
                 ctx.ob('SEQKIND', 'element/Array/step-before-value', ok, short_loc(se.span), 'signal_next_record dominates the element write: %s' % ok)
@@ -596,7 +607,7 @@ def seqkind_rule(ctx):
             toks = {t[0] for t in region_tokens(en, r.blocks, f)}
             ctx.ob('SEQKIND', 'end/BufferedBytes/length-delimited', toks == {('LENDELIM',)}, short_loc(en.span), 'emits %s' % sorted(toks, key=str))
         if v == 'Array':
-            ok = bool(blocks_calling(en, ['BlockWriter::<\'r, \'c, \'s, W>::end'], r.blocks))
+            ok = ('BLOCKEND',) in {t[0] for t in region_tokens(en, r.blocks, f)}
             ctx.ob('SEQKIND', 'end/Array/terminator', ok, short_loc(en.span), 'calls BlockWriter::end: %s' % ok)
     by = bs['bytes']
     ctx.touched(by)
@@ -661,7 +672,11 @@ def decscale_rule(ctx):
             if cond[1] in ('Lt', 'Ge', 'Gt', 'Le'):
                 if any('can_truncate_without_altering_number' in n for n in l.call_names() | r_.call_names()):
                     if any(call_matches(c, ['::checked_sub']) for c in l.calls + r_.calls):
-                        fit = True
+                        # exactly `can_truncate < start` (either orientation), nothing added or subtracted
+                        helper_side, bound_side = (l, r_) if any('can_truncate_without_altering_number' in n for n in l.call_names()) else (r_, l)
+                        strict_lt = (cond[1] == 'Lt' and helper_side is l) or (cond[1] == 'Gt' and helper_side is r_)
+                        fit = not l.has_arith() and not r_.has_arith() and strict_lt and not helper_side.consts() - {0, 1} \
+                            and not any(call_matches(c, ['::checked_sub']) for c in helper_side.calls)
     loc0 = short_loc(mod[0].span)
     ctx.ob('DECSCALE', 'serialize/scale-mismatch-errs', ok, loc0, detail)
     ctx.ob('DECSCALE', 'serialize/sign-aware-truncation-helper', uses >= 2, loc0,
@@ -704,12 +719,22 @@ def descend_rule(ctx):
                         # map key: the constant String node; map value: elements_schema; record field: the node handed in
                         # together with its index (pairing checked by C13)
                         aggs = {a[2] for a in o.atoms if a[0] == 'agg' and a[1] == SCHEMA_NODE}
+                        # what is serialised with this serializer: the key or the value parameter?
+                        role = None
+                        dst = s['assign']['l']
+                        for bb2, t2 in b.calls():
+                            if (t2.get('callee') or '') == 'serde_core::ser::Serialize::serialize' and len(t2['args']) == 2:
+                                p1 = op_place(t2['args'][1])
+                                if p1 is not None and p1['l'] == dst:
+                                    vo = origin(b, t2['args'][0])
+                                    nm = {b.local_name(a[1]) for a in vo.atoms if a[0] == 'param'}
+                                    role = 'key' if nm == {'key'} else 'value' if nm == {'value'} else None
                         if aggs:
-                            ok = aggs == {'String'} and not o.params()
-                            why = 'map key: constant String node'
+                            ok = aggs == {'String'} and not o.params() and role == 'key'
+                            why = 'map key (role: %s): constant String node' % role
                         elif 'elements_schema' in o.fields:
-                            ok = True
-                            why = 'map value node'
+                            ok = role == 'value'
+                            why = 'map value node (role: %s)' % role
                         elif fl.endswith('serialize_record_value') and o.params():
                             ok = True
                             why = 'record field node (parameter, paired with its index by field_idx: C13)'
